@@ -30,6 +30,7 @@ class Task:
         self.result = None
         self.exc = None
         self.waiting_on = None
+        self.pending_exc = None
 
         def run():
             try:
@@ -75,11 +76,22 @@ class Sched:
         t.waiting_on = None
         if self.dead:
             raise SystemExit()
+        if t.pending_exc is not None:
+            e, t.pending_exc = t.pending_exc, None
+            raise e
 
     def wake(self, t):
         if t.state == 'blocked':
             t.state = 'runnable'
             self.runq.append(t)
+
+    def cancel(self, t, exc):
+        """what a green-thread web server does to a handler it gives up on: the exception is raised at the blocking point"""
+        if t.state == 'blocked':
+            t.pending_exc = exc
+            self.wake(t)
+            return True
+        return False
 
     def add_timer(self, dt, t):
         tm = [self.now + dt, next(self.seq), t, True]
@@ -522,6 +534,17 @@ class ThreadedDriver(DriverBase):
         if settle:
             self.S.settle()
 
+    def cancel_ws(self, cid, settle=True):
+        """the task serving WebSocket `cid` is killed while it waits for a frame (GreenletExit at the blocking point)"""
+        c = self.conns[cid]
+        ok = c.waiter is not None and self.S.cancel(c.waiter, greenlet.GreenletExit())
+        if settle:
+            self.S.settle()
+        return ok
+
+    def cancel_request(self, rid, settle=True):
+        return False            # a thread blocked in a long poll cannot be cancelled
+
     # ---- application API
     def api(self, name, *args, settle=True):
         aid = next(self._aid)
@@ -761,7 +784,9 @@ class AsyncDriver(DriverBase):
             try:
                 await self.app(scope, receive, send)
             except asyncio.CancelledError:
-                raise
+                if not rec.get('cancel_requested'):
+                    raise
+                rec['raised'] = 'CancelledError'         # the harness cancelled this request's task: the exception left the application
             except BaseException as e:   # noqa
                 rec['raised'] = type(e).__name__
                 rec['raised_msg'] = str(e)[:200]
@@ -850,6 +875,20 @@ class AsyncDriver(DriverBase):
         c.q.put_nowait({'type': 'websocket.disconnect', 'code': 1005})
         if settle:
             self.lp.settle()
+
+    def cancel_request(self, rid, settle=True):
+        """the web server cancels the task that serves request `rid` (connection lost, worker shutdown)"""
+        rec = self.rec.get(rid)
+        if rec is None or rec.get('done') or rec['task'].done():
+            return False
+        rec['cancel_requested'] = True
+        rec['task'].cancel()
+        if settle:
+            self.lp.settle()
+        return True
+
+    def cancel_ws(self, cid, settle=True):
+        return self.cancel_request(self.conns[cid].rid, settle)
 
     def api(self, name, *args, settle=True):
         aid = next(self._aid)
